@@ -61,6 +61,9 @@ pub static CUR_RUN: AtomicU64 = AtomicU64::new(u64::MAX);
 pub static CUR_TASK_OP: AtomicU64 = AtomicU64::new(0);
 /// > 0 while an operation on the system under test is executing on some task
 pub static IN_SUT: AtomicUsize = AtomicUsize::new(0);
+/// the current run places buffers and objects for the memory-safety monitors (C07): an abort raised by the
+/// allocator's own consistency checks then counts as a memory fault
+pub static GUARD_RUN: std::sync::atomic::AtomicBool = std::sync::atomic::AtomicBool::new(false);
 
 #[derive(Clone, Copy, PartialEq, Debug)]
 pub enum Place {
@@ -255,7 +258,7 @@ extern "C" fn on_fatal(sig: libc::c_int, info: *mut libc::siginfo_t, _ctx: *mut 
     put(&mut buf, &mut n, b"\n");
     unsafe {
         libc::write(CRASH_FD.load(Ordering::Relaxed), buf.as_ptr() as *const libc::c_void, n);
-        libc::_exit(if in_guard || in_sut { EXIT_MEMFAULT } else { EXIT_CRASH_OTHER });
+        libc::_exit(if in_guard || in_sut || (sig == libc::SIGABRT && GUARD_RUN.load(Ordering::Relaxed)) { EXIT_MEMFAULT } else { EXIT_CRASH_OTHER });
     }
 }
 
@@ -275,7 +278,8 @@ pub fn install_fatal_handlers(crash_file: Option<&str>) {
         let mut sa: libc::sigaction = std::mem::zeroed();
         sa.sa_sigaction = on_fatal as usize;
         sa.sa_flags = libc::SA_SIGINFO | libc::SA_ONSTACK;
-        for s in [libc::SIGSEGV, libc::SIGBUS, libc::SIGILL, libc::SIGFPE] {
+        // SIGABRT: glibc aborts when it finds its heap metadata overwritten (a write past a heap object)
+        for s in [libc::SIGSEGV, libc::SIGBUS, libc::SIGILL, libc::SIGFPE, libc::SIGABRT] {
             libc::sigaction(s, &sa, std::ptr::null_mut());
         }
     }
